@@ -65,7 +65,7 @@ def run(chk):
     chk.assumptions = ['the generic control-message writer (generate_control_packet_bytes with caller-supplied raw control header) is exercised through the 23 control encoders, not with arbitrary header bytes',
                        'SPDM writer with message_type SpdmOverMctp or SecuredMessages (the two types the API documents)',
                        'equality of the PEC on both sides is term identity (same routine, same view), not CRC arithmetic']
-    encs, rows = enc_rules.analysed(chk)
+    encs, rows = enc_rules.analysed(chk, 'C01.a-d')
     n = 0
     n_leaves = 0
     for enc, lf, know, length, ordered, why in rows:
@@ -129,7 +129,7 @@ def run(chk):
                    site=site, detail={'encoder_leaf': dump_leaf(lf, prog), 'decoder_leaves': [dump_leaf(d, prog, dna) for d in dleaves]})
     chk.extra['compositions'] = n
     chk.extra['decoder_leaves_in_compositions'] = n_leaves
-    chk.floor('encoder leaf x case compositions', n, 24 + 44 * 6 + 2 + 8 + 8)
+    chk.floor('encoder leaf x case compositions (plus reported unanalysable paths)', n + getattr(chk, 'unanalysable', 0), 270)
 
 
 def outcome_text(prog, d):
